@@ -1023,3 +1023,200 @@ func (t *Term) Size(cap int) int {
 	rec(t)
 	return len(seen)
 }
+
+// ---------------------------------------------------------------- concrete evaluation
+
+// Eval evaluates a Bool/BitVec term under an assignment of variable IDs to values. ok is false
+// when the term contains reals, integers or uninterpreted functions, or an unassigned variable.
+// memo must be a fresh map per assignment.
+func (t *Term) Eval(env map[int]uint64, memo map[int]uint64) (uint64, bool) {
+	switch t.Op {
+	case OConst:
+		if t.Sort.K == KBool || t.Sort.K == KBV {
+			return t.U, true
+		}
+		return 0, false
+	case OVar:
+		v, ok := env[t.ID]
+		return v, ok
+	}
+	if v, ok := memo[t.ID]; ok {
+		return v, true
+	}
+	var a [3]uint64
+	if t.Op != OAnd && t.Op != OOr && t.Op != OIte {
+		if len(t.Args) > 3 {
+			return 0, false
+		}
+		for k, x := range t.Args {
+			v, ok := x.Eval(env, memo)
+			if !ok {
+				return 0, false
+			}
+			a[k] = v
+		}
+	}
+	b2u := func(b bool) uint64 {
+		if b {
+			return 1
+		}
+		return 0
+	}
+	var r uint64
+	w := t.Sort.W
+	var aw uint16
+	if len(t.Args) > 0 {
+		aw = t.Args[0].Sort.W
+	}
+	sx := func(v uint64, w uint16) int64 {
+		if w >= 64 {
+			return int64(v)
+		}
+		if v&(uint64(1)<<(w-1)) != 0 {
+			return int64(v | ^mask(w))
+		}
+		return int64(v)
+	}
+	switch t.Op {
+	case ONot:
+		r = 1 - a[0]
+	case OAnd:
+		r = 1
+		for _, x := range t.Args {
+			v, ok := x.Eval(env, memo)
+			if !ok {
+				return 0, false
+			}
+			if v == 0 {
+				r = 0
+				break
+			}
+		}
+	case OOr:
+		r = 0
+		for _, x := range t.Args {
+			v, ok := x.Eval(env, memo)
+			if !ok {
+				return 0, false
+			}
+			if v == 1 {
+				r = 1
+				break
+			}
+		}
+	case OIte:
+		c, ok := t.Args[0].Eval(env, memo)
+		if !ok {
+			return 0, false
+		}
+		var v uint64
+		if c == 1 {
+			v, ok = t.Args[1].Eval(env, memo)
+		} else {
+			v, ok = t.Args[2].Eval(env, memo)
+		}
+		if !ok {
+			return 0, false
+		}
+		r = v
+	case OEq:
+		if t.Args[0].Sort.K != KBool && t.Args[0].Sort.K != KBV {
+			return 0, false
+		}
+		r = b2u(a[0] == a[1])
+	case OBvAdd:
+		r = a[0] + a[1]
+	case OBvSub:
+		r = a[0] - a[1]
+	case OBvMul:
+		r = a[0] * a[1]
+	case OBvUDiv:
+		if a[1] == 0 {
+			r = mask(w)
+		} else {
+			r = a[0] / a[1]
+		}
+	case OBvURem:
+		if a[1] == 0 {
+			r = a[0]
+		} else {
+			r = a[0] % a[1]
+		}
+	case OBvSDiv:
+		x, y := sx(a[0], w), sx(a[1], w)
+		switch {
+		case y == 0:
+			if x < 0 {
+				r = 1
+			} else {
+				r = mask(w)
+			}
+		case y == -1:
+			r = uint64(-x)
+		default:
+			r = uint64(x / y)
+		}
+	case OBvSRem:
+		x, y := sx(a[0], w), sx(a[1], w)
+		switch {
+		case y == 0:
+			r = a[0]
+		case y == -1:
+			r = 0
+		default:
+			r = uint64(x % y)
+		}
+	case OBvAnd:
+		r = a[0] & a[1]
+	case OBvOr:
+		r = a[0] | a[1]
+	case OBvXor:
+		r = a[0] ^ a[1]
+	case OBvNot:
+		r = ^a[0]
+	case OBvNeg:
+		r = -a[0]
+	case OBvShl:
+		if a[1] >= uint64(w) {
+			r = 0
+		} else {
+			r = a[0] << a[1]
+		}
+	case OBvLShr:
+		if a[1] >= uint64(w) {
+			r = 0
+		} else {
+			r = a[0] >> a[1]
+		}
+	case OBvAShr:
+		x := sx(a[0], w)
+		if a[1] >= uint64(w) {
+			if x < 0 {
+				r = mask(w)
+			}
+		} else {
+			r = uint64(x >> a[1])
+		}
+	case OBvUlt:
+		r = b2u(a[0] < a[1])
+	case OBvUle:
+		r = b2u(a[0] <= a[1])
+	case OBvSlt:
+		r = b2u(sx(a[0], aw) < sx(a[1], aw))
+	case OBvSle:
+		r = b2u(sx(a[0], aw) <= sx(a[1], aw))
+	case OZExt:
+		r = a[0]
+	case OSExt:
+		r = uint64(sx(a[0], aw))
+	case OExtract:
+		r = a[0] >> uint(t.P1)
+	default:
+		return 0, false
+	}
+	if t.Sort.K == KBV {
+		r &= mask(w)
+	}
+	memo[t.ID] = r
+	return r, true
+}
